@@ -2301,9 +2301,9 @@ class Node(SimComponent, ABC):
         for service_id in self.services:
             self.services[service_id].start()
 
-        # Turn on all the applications in the node
+        # Turn on all the applications in the node (open them; what a running application does happens in its timesteps)
         for app_id in self.applications:
-            self.applications[app_id].run()
+            Application.run(self.applications[app_id])
 
     def _install_system_software(self) -> None:
         """Preinstall required software."""
